@@ -802,7 +802,12 @@ func buildConnectModel(p *Prog, a *connectAnchors) *connectModel {
 					}
 				}
 			}
-			if l := r.locOf(x.Addr); "" != l && shared(l) {
+			if l := r.locOf(x.Addr); "b.shadow-of-key" == l {
+				noteAccess("store", l)
+				if av := r.Eval(x.Val); avNil == av.K {
+					r.Mem[l] = avEmptyS /* nothing kept: the empty key */
+				}
+			} else if "" != l && shared(l) {
 				noteAccess("store", l)
 				r.Emit("store:%s=%s", l, r.Eval(x.Val))
 				if strings.Contains(l, "(direct)") {
@@ -944,6 +949,101 @@ func buildConnectModel(p *Prog, a *connectAnchors) *connectModel {
 		return false
 	}
 
+	/* Shadows of the key: a field of the same struct which only ever
+	receives (a conversion of) what the key field receives in the same
+	function, or nothing ("[]byte(key), kept so as not to convert on every
+	comparison").  It holds what the key holds; the model reads it as the
+	key and does not count its stores as stores of the key. */
+	shadowLocs := map[string]bool{}
+	if nil != a.FKey && strings.Contains(a.KeyLoc, ".") {
+		prefix := a.KeyLoc[:strings.LastIndex(a.KeyLoc, ".")+1]
+		cand := map[*types.Var]bool{}
+		bad := map[*types.Var]bool{}
+		for _, f := range p.Funcs() {
+			if nil == f.Pkg || f.Pkg != fn.Pkg {
+				continue
+			}
+			var keyVals []ssa.Value
+			eachInstr(f, func(i ssa.Instruction) {
+				if st, ok := i.(*ssa.Store); ok {
+					if fv, _ := fieldAddrOf(st.Addr); fv == a.FKey {
+						keyVals = append(keyVals, stripConv(st.Val, true))
+					}
+				}
+			})
+			eachInstr(f, func(i ssa.Instruction) {
+				st, ok := i.(*ssa.Store)
+				if !ok {
+					return
+				}
+				fv, base := fieldAddrOf(st.Addr)
+				if nil == fv || fv == a.FKey || nil == base {
+					return
+				}
+				switch t := fv.Type().Underlying().(type) {
+				case *types.Slice:
+					if !types.Identical(t.Elem(), types.Typ[types.Byte]) {
+						return
+					}
+				case *types.Basic:
+					if 0 == t.Info()&types.IsString {
+						return
+					}
+				default:
+					return
+				}
+				if "" == brokerPath(st.Addr, recvOf(f), func(v ssa.Value) (int64, bool) { return constInt(v) }) {
+					return
+				}
+				v := stripConv(st.Val, true)
+				okV := isNilConst(v)
+				if sv, isS := constString(v); isS && "" == sv {
+					okV = true
+				}
+				for _, kv := range keyVals {
+					if kv == v {
+						okV = true
+					}
+				}
+				if okV {
+					cand[fv] = true
+				} else {
+					bad[fv] = true
+				}
+			})
+		}
+		/* Kept in step: wherever the key is stored, the shadow is too. */
+		for fv := range cand {
+			for _, f := range p.Funcs() {
+				if nil == f.Pkg || f.Pkg != fn.Pkg {
+					continue
+				}
+				nk, ns := 0, 0
+				eachInstr(f, func(i ssa.Instruction) {
+					if st, ok := i.(*ssa.Store); ok {
+						switch sv, _ := fieldAddrOf(st.Addr); sv {
+						case a.FKey:
+							nk++
+						case fv:
+							ns++
+						}
+					}
+				})
+				if nk != ns && (nk > 0 || ns > 0) {
+					/* (A branch which stores nil or the conversion counts
+					once per key store when folded: allow one extra.) */
+					if !(nk > 0 && ns >= nk && ns <= 2*nk) {
+						bad[fv] = true
+					}
+				}
+			}
+		}
+		for fv := range cand {
+			if !bad[fv] {
+				shadowLocs[prefix+fv.Name()] = true
+			}
+		}
+	}
 	for k, in := range a.Insts {
 		inst = in
 		/* Discovery: an admissible attempt on an idle broker shows which
@@ -978,6 +1078,9 @@ func buildConnectModel(p *Prog, a *connectAnchors) *connectModel {
 			continue
 		}
 		names = map[string]string{in.Own: "*own", in.Peer: "*peer", a.KeyLoc: "b.key", a.NoMoreLoc: "b.noMore"}
+		for sl := range shadowLocs {
+			names[sl] = "b.shadow-of-key"
+		}
 		unlockedBefore := len(unlocked)
 		_ = unlockedBefore
 		_ = k
@@ -1007,6 +1110,9 @@ func buildConnectModel(p *Prog, a *connectAnchors) *connectModel {
 										mem["b.key"] = avStrClass("K")
 									case "O":
 										mem["b.key"] = avStrClass("O")
+									}
+									if 0 != len(shadowLocs) {
+										mem["b.shadow-of-key"] = mem["b.key"]
 									}
 									if us {
 										mem["*own"] = avNonNil
@@ -1079,4 +1185,12 @@ func firstPrefix(tr []string, pre string) string {
 		}
 	}
 	return ""
+}
+
+// recvOf: the receiver parameter of a method (nil for a function).
+func recvOf(f *ssa.Function) ssa.Value {
+	if nil == f || nil == f.Signature.Recv() || 0 == len(f.Params) {
+		return nil
+	}
+	return f.Params[0]
 }
